@@ -401,9 +401,9 @@ PROPS = {
     "C01": {"level_text": "Machine-checked proof in Coq 8.16.1 over an executable model tied to the code by a per-run correspondence; the emission model and the name-freshness theorems are proved; that the emitted package compiles under Go's type checker is established by compiling every accepted program of the corpus (partial).", "theorems": ["C01_one_implementation", "C14_names_distinct", "C14_invented_names_fresh"], "engines": [eng_prog, eng_zerovalue, eng_multi, eng_layouts, eng_forms, eng_body],
             "assumptions": ["partial: Go's full type checker and types.TypeString are not modelled; that the package compiles is established by go build on every accepted program"]},
     "C02": {"theorems": ["C02_wiring_accepted", "C02_machine_refines_visit", "C06_accepted_is_complete_accepted", "C05_accepted_maps_well_formed"], "engines": [eng_synth, eng_prog, eng_multi, eng_layouts], "assumptions": [SYNTH_NOTE, WF_NOTE, "emission of the planned calls and the run-time behaviour are tied by the emitted-lines correspondence and the runtime traces"]},
-    "C03": {"theorems": ["C03_failure"], "engines": [eng_prog],
+    "C03": {"theorems": ["C03_failure", "C03_nothing_called_after_failure", "C03_unwinds_exactly_the_succeeded", "C03_unwinds_once", "C03_own_cleanup_never_runs"], "engines": [eng_prog],
             "assumptions": ["Go semantics of the emitted fragment (short variable declarations, if, calls, closures) is Exec.v's reading of the Go spec, validated by the runtime traces of every generated injector under every single-provider failure"]},
-    "C04": {"theorems": ["C04_success"], "engines": [eng_prog],
+    "C04": {"theorems": ["C04_success", "C04_releases_everything", "C04_releases_once", "C04_dependents_released_first", "C04_nothing_released_early"], "engines": [eng_prog],
             "assumptions": ["Go semantics of the emitted fragment is Exec.v's reading of the Go spec, validated by runtime traces"]},
     "C05": {"theorems": ["C05_never_picks", "C05_closure_spelled_out", "C05_conflict_is_real", "C05_conflict_is_reported", "C05_accepted_maps_well_formed"], "engines": [eng_synth, eng_prog, eng_multi], "assumptions": [SYNTH_NOTE]},
     "C06": {"theorems": ["C06_missing_accepted", "C06_rejected_names_missing_accepted", "C06_accepted_is_complete_accepted"], "engines": [eng_synth, eng_prog, eng_multi, eng_forms], "assumptions": [SYNTH_NOTE, WF_NOTE]},
@@ -423,17 +423,17 @@ PROPS = {
     "C14": {"theorems": ["C14_names_distinct", "C14_file_names_distinct", "C14_emitted_pass_names_fresh", "C14_invented_names_fresh", "C14_disambiguate_fresh", "C16_collision_order_independent"], "engines": [eng_prog, eng_multi, eng_layouts, eng_rename],
             "assumptions": ["identifiers are ASCII in the model; non-ASCII names are outside the generated corpus"]},
     "C15": {"level_text": "Machine-checked proof in Coq 8.16.1 over an executable model tied to the code by a per-run correspondence; the copy is proved to be the identity for any complete table and the table is regenerated from copyAST each run; the renaming pass is modelled (Rename.v, tied by a hook that runs the real rewritePkgRefs) and proved never to capture; the qualification pass (package references) is exercised by the copy corpus and the layouts, not modelled (partial).", "theorems": ["C15_copy_identity", "C15_missing_field_is_lost", "C15_renaming_never_captures"], "engines": [eng_copyprobe, eng_copydecls, eng_rename],
-            "assumptions": ["partial: the capture-avoiding renaming of rewritePkgRefs is exercised by the declaration corpus (structure + behaviour), not modelled in Coq",
+            "assumptions": ["partial: the second (renaming) pass of rewritePkgRefs is modelled as a pass over the sequence of identifier occurrences (Rename.v, tied by the renameprobe hook); its first pass (package qualifiers) and Go's scoping of the copied declarations are exercised by the declaration corpus (structure + behaviour), not modelled",
                             "go/printer prints what copyAST returns; not modelled"]},
-    "C16": {"level_text": "Machine-checked proof in Coq 8.16.1 over an executable model tied to the code by a per-run correspondence; order-independence of every map-driven decision of the model is proved; loader behaviour across layouts is sampled by byte-comparing runs (partial).", "theorems": ["C16_collision_order_independent", "C10_phase_order_independent", "C07_cycles_detected"], "engines": [eng_determinism],
+    "C16": {"level_text": "Machine-checked proof in Coq 8.16.1 over an executable model tied to the code by a per-run correspondence; order-independence of every map-driven decision of the model is proved; loader behaviour across layouts is sampled by byte-comparing runs (partial).", "theorems": ["C16_collision_order_independent", "C16_import_block_order_independent", "C10_analysis_order_independent", "C10_phase_order_independent", "C07_cycles_detected"], "engines": [eng_determinism],
             "assumptions": ["partial: loader behaviour across layouts is the go tool's and go/packages' runtime behaviour; the model cannot exhibit it, the runs sample it",
-                            "sorting of the import blocks (sort.Strings) is compared between runs, not modelled"]},
+                            "the import block is modelled as the sorted list of the allocated imports (Imports.v); the model's block is compared line by line, in order, with the generated file in every emitted-lines case of the prog engine (C01/C02/C14), and between runs here"]},
     "C17": {"level_text": "Machine-checked proof in Coq 8.16.1 over an executable model tied to the code by a per-run correspondence; the command logic is proved over an abstract file system; the OS write is modelled as whole-file replace and tied by tree hashes (partial).", "theorems": ["C17_gen_exit", "C17_gen_footprint", "C17_failed_package_untouched", "C17_failure_does_not_block_others", "C17_diff_readonly", "C17_diff_exit"],
             "engines": [eng_cli], "assumptions": ["partial: OS write semantics are modelled as whole-file replace, tied by before/after tree hashes", "per-package Generate results are inputs of the command model"]},
     "C18": {"level_text": "Machine-checked proof in Coq 8.16.1 over an executable model tied to the code by a per-run correspondence; the history machine is proved under the hypothesis that analysis depends on current sources only, which the histories test against the binary (partial).", "theorems": ["C18_history_independent", "C18_failed_gen_untouched", "C17_diff_readonly"], "engines": [eng_cli],
             "assumptions": ["partial: that analysis is a function of the current sources (files constrained !wireinject are invisible under -tags=wireinject) is the section hypothesis content_of; it is exactly what the histories test against the binary"]},
     "C19": {"theorems": ["C19_check_iff_gen", "C19_show_groups_by_needed_inputs", "C19_show_lists_included_sets", "C19_show_included_sets_terminates", "C19_show_groups_terminate", "C05_never_picks"], "engines": [eng_cli, eng_prog, eng_show, eng_layouts],
-            "assumptions": ["the `show` grouping is checked on the binary's output against the property's wording, its stack machine (gather) is not modelled in Coq"]},
+            "assumptions": ["the `show` grouping (gather's stack machine) and the included-sets work-list are modelled in Show.v and compared with the binary's output per set; the output is also checked against the property's wording computed independently from the program"]},
     "C20": {"level_text": "Machine-checked proof in Coq 8.16.1 over an executable model tied to the code by a per-run correspondence; the modelled rules are total functions and zeroValue/funcOutput tables are regenerated and re-proved each run; the acceptance rules of the marker calls and of injector bodies are modelled (FrontRules.v, InjBody.v); crash-freedom of the Go code's pattern recognition rests on enumerated and grammar-generated spellings through gen and check (partial).", "theorems": ["C20_injector_template_iff", "C20_invalid_injector_calls_build", "C09_results", "C12_check_field_sound", "C07_terminates"], "engines": [eng_forms, eng_zerovalue, eng_funcoutput, eng_multi, eng_layouts, eng_body],
             "assumptions": ["partial: the front end's pattern recognition of marker-call arguments is not modelled in Coq; the crash-freedom claim for it rests on the enumerated spellings through the binary",
                             "proved parts: the modelled rules (funcOutput, field selection, cycle check) are total functions; zeroValue is total over the regenerated kind table"]},
